@@ -205,7 +205,7 @@ class PbeCorrelation:
         self.f, self.Nspin, self.kind, self.s, self.source_edit = f, Nspin, kind, s, source_edit
 
     def __call__(self, ob, tier, seed):
-        if tier != "thorough" and self.source_edit is None:
+        if tier != "thorough" and self.source_edit is None and self.Nspin == 2:
             return Result(UNDECIDED, backend="engine-S", detail="the modular proof runs in the thorough tier only (minutes per identity)")
         t0 = time.time()
         src = None
